@@ -55,9 +55,11 @@ Es == <<0, 1, 2, 3, 5, 17, 40, 100>>
 Factors == << NN(2), NN(3), NN(4), NN(6), NN(10), PowerOfTwo(64), Add(PowerOfTwo(64), One), MB("dense", 20, Seed), NN(0), NN(1) >>
 RemK == <<0, 1, 2, 3, 5, 8, 13>>
 LBits == <<1, 7, 8, 15, 16, 23, 24, 25, 31, 32, 53, 63, 64, 65, 127, 128, 129, 191, 192, 200, 640, 2000>>
-FExp32 == <<0, 1, 2, 64, 100, 126, 127, 128, 150, 151, 200, 254>>
+FExp32 == IF Big THEN [i \in 1..255 |-> i - 1]       \* every finite exponent field (thorough)
+          ELSE <<0, 1, 2, 64, 100, 126, 127, 128, 150, 151, 200, 254>>
 FMan32 == <<0, 1, 4194304, 8388607, 1234567, 7654321, 3, 8388606>>
-FExp64 == <<0, 1, 2, 512, 1000, 1022, 1023, 1024, 1075, 1076, 1500, 2046>>
+FExp64 == IF Big THEN [i \in 1..64 |-> IF i = 64 THEN 2046 ELSE (i - 1) * 32 + (i % 3)] \o <<1022, 1023, 1024, 1075, 1076>>
+          ELSE <<0, 1, 2, 512, 1000, 1022, 1023, 1024, 1075, 1076, 1500, 2046>>
 FbBases == <<2, 3, 10, 16, 36>>
 FbExps == <<0, 1, -1, 50, -50, 200, -200, 1000, -1000>>
 
